@@ -360,39 +360,70 @@ func (p *puppet) installFrom(r *rand.Rand, forceT int) (int, int) {
 	return t, s
 }
 
-// is sends one InstallSnapshot request. The handler may legitimately wait for the node to apply entries it
-// already holds up to the label; a real leader keeps sending heartbeats meanwhile, so the puppet leader does too.
+// is sends one InstallSnapshot request the way the real sender would experience it. The handler may wait for the
+// node to apply entries it already holds up to the label. A real leader does not send AppendEntries to that
+// follower meanwhile (its next index is at or below its own snapshot): it retransmits the snapshot with every
+// heartbeat, and only when a retransmission is acknowledged as complete does it move on to AppendEntries, which
+// carries the commit index that lets the waiting handler finish. The puppet leader does the same; if that
+// protocol does not complete within 8 rounds the transfer is stuck (C15).
 func (p *puppet) is(req raft.InstallSnapshotRequest) (raft.InstallSnapshotResponse, error) {
 	type out struct {
 		resp raft.InstallSnapshotResponse
 		err  error
 	}
-	ch := make(chan out, 1)
-	go func() {
-		resp, err := p.eps[req.LeaderID].SendInstallSnapshot("p", req)
-		ch <- out{resp, err}
-	}()
-	for i := 0; ; i++ {
+	send := func(r raft.InstallSnapshotRequest) chan out {
+		ch := make(chan out, 1)
+		go func() {
+			resp, err := p.eps[r.LeaderID].SendInstallSnapshot("p", r)
+			ch <- out{resp, err}
+		}()
+		return ch
+	}
+	first := send(req)
+	select {
+	case o := <-first:
+		return o.resp, o.err
+	case <-time.After(15 * time.Millisecond):
+	}
+	// the handler is waiting: from now on requests overlap
+	p.M.Emit(mon.Event{Kind: mon.KNote, Str: "concurrent-requests"})
+	p.x.count("puppet.install_handler_waited", 1)
+	for round := 0; round < 8; round++ {
+		p.log("  (handler waiting: leader retransmits the snapshot request)")
+		dup := send(req)
+		acked := false
 		select {
-		case o := <-ch:
+		case o := <-first:
 			return o.resp, o.err
+		case o := <-dup:
+			acked = o.err == nil && req.Done && o.resp.BytesWritten == req.Offset+int64(len(req.Bytes))
 		case <-time.After(15 * time.Millisecond):
 		}
-		if i >= 3 {
-			// The handler waits on the apply condition, which is only signalled when the commit index moves
-			// again; with an idle leader it stays parked until shutdown. That blocks nothing else (the node
-			// mutex is released while waiting), so it is counted, not alarmed on; the request is treated as
-			// one whose reply never arrived.
-			p.x.count("puppet.install_handler_parked", 1)
-			p.log("  (handler parked)")
-			return raft.InstallSnapshotResponse{}, fmt.Errorf("parked")
+		if acked {
+			// transfer acknowledged as complete: the leader continues with AppendEntries after the snapshot
+			hb := raft.AppendEntriesRequest{LeaderID: req.LeaderID, Term: req.Term, PrevLogIndex: req.LastIncludedIndex, PrevLogTerm: req.LastIncludedTerm, LeaderCommit: req.LastIncludedIndex}
+			p.log("  (retransmission acknowledged: heartbeat prev %d commit %d)", hb.PrevLogIndex, hb.LeaderCommit)
+			p.eps[req.LeaderID].SendAppendEntries("p", hb)
+			if smp := p.sample(); smp != nil && smp.Commit >= req.LastIncludedIndex {
+				break // the follower has moved on; the first invocation may stay parked
+			}
 		}
-		hb := raft.AppendEntriesRequest{LeaderID: req.LeaderID, Term: req.Term, PrevLogIndex: req.LastIncludedIndex, PrevLogTerm: req.LastIncludedTerm, LeaderCommit: req.LastIncludedIndex}
-		p.log("  (handler waiting: heartbeat prev %d commit %d)", hb.PrevLogIndex, hb.LeaderCommit)
-		// this request overlaps the waiting handler: before/after samples around it are not exact
-		p.M.Emit(mon.Event{Kind: mon.KNote, Str: "concurrent-requests"})
-		p.eps[req.LeaderID].SendAppendEntries("p", hb)
+		select {
+		case o := <-first:
+			return o.resp, o.err
+		case <-time.After(10 * time.Millisecond):
+		}
+		if !req.Done {
+			break
+		}
 	}
+	// What matters is the follower's progress, not the first handler invocation (which may stay parked on the
+	// apply condition until the commit index moves again; it holds no lock and blocks nobody).
+	if smp := p.sample(); req.Done && (smp == nil || smp.Commit < req.LastIncludedIndex) {
+		p.M.AddViolation(mon.Violation{Props: []string{"C15"}, Sig: "install-handshake-stuck", Node: "p", Msg: fmt.Sprintf("after InstallSnapshot(label %d/%d, final chunk) the follower's commit index never reached the label although the leader kept retransmitting the request for 8 heartbeat rounds (a real leader sends no AppendEntries to a follower whose next index is inside its snapshot, so nothing else can unblock the follower)", req.LastIncludedIndex, req.LastIncludedTerm)})
+	}
+	p.log("  (handler parked)")
+	return raft.InstallSnapshotResponse{}, fmt.Errorf("parked")
 }
 
 // ---------------------------------------------------------------- C08: RequestVote sweep
